@@ -328,7 +328,8 @@ def run(ctx):
           viol_value('hash', c, f'hash raised {e!r}', {'value': v})
       # ---- copies: clone / deepcopy / @= / <<= , then an in-place write to one leaf of one side
       va = v; vb = v_unpack(s, rng.getrandbits(W) if bi % 2 else full ^ bv)
-      for op in ('clone', 'deepcopy', 'imatmul', 'imatmul_bits', 'ilshift_noflip', 'ilshift_flip', 'ilshift_poke_flip'):
+      all_ops = ['clone', 'deepcopy', 'imatmul', 'imatmul_bits', 'ilshift_noflip', 'ilshift_flip', 'ilshift_poke_flip']
+      for op in (all_ops if (not quick or c.idx < 12) else rng.sample(all_ops, 4)):
         p, w = rng.choice(leaves)
         who = rng.random() < 0.5
         try:
@@ -346,7 +347,7 @@ def run(ctx):
             tgt = cpy if who else a
             # the leaf written must differ from BOTH current values (they are equal here)
             operator.imatmul(leaf_obj(s, tgt, p), newv)
-            obs = (packed(a), packed(cpy)); scop = 'ScClone'
+            obs = (observe(s, a), observe(s, cpy)); scop = 'ScClone'
           elif op == 'imatmul_bits':
             a @= bobj.to_bits()
             if packed(a) != packed(bobj):
@@ -360,10 +361,10 @@ def run(ctx):
             tgt = a if who else bobj
             ub = int(leaf_obj(s, tgt, p).uint()); u = (ub + 1) % (1 << w); newv = mk_bits(w)(u)
             operator.imatmul(leaf_obj(s, tgt, p), newv)
-            obs = (packed(bobj), packed(a)); scop = 'ScImatmul'
+            obs = (observe(s, bobj), observe(s, a)); scop = 'ScImatmul'
           elif op == 'ilshift_noflip':
             a <<= bobj
-            obs = (packed(bobj), packed(a)); scop = 'ScIlshiftNoFlip'
+            obs = (observe(s, bobj), observe(s, a)); scop = 'ScIlshiftNoFlip'
           elif op == 'ilshift_flip':
             a <<= bobj
             a._flip()
@@ -372,15 +373,15 @@ def run(ctx):
             tgt = a if who else bobj
             ub = int(leaf_obj(s, tgt, p).uint()); u = (ub + 1) % (1 << w); newv = mk_bits(w)(u)
             operator.imatmul(leaf_obj(s, tgt, p), newv)
-            obs = (packed(bobj), packed(a)); scop = 'ScIlshiftFlip'
+            obs = (observe(s, bobj), observe(s, a)); scop = 'ScIlshiftFlip'
           else:
             a <<= bobj
             ub = int(leaf_obj(s, bobj, p).uint()); u = (ub + 1) % (1 << w); newv = mk_bits(w)(u)
             operator.imatmul(leaf_obj(s, bobj, p), newv)
             a._flip()
-            obs = (packed(bobj), packed(a)); scop = 'ScIlshiftPokeFlip'
-          s_cases.append(f'(T{c.idx}, {scop}, {v_term(s, va)}, {v_term(s, vb)}, {"true" if who else "false"}, {TR.t_path(p)}, {zlit(u)}, '
-                         f'({zlit(obs[0])}, {zlit(obs[1])}))')
+            obs = (observe(s, bobj), observe(s, a)); scop = 'ScIlshiftPokeFlip'
+          s_cases.append(f'({scop}, {v_term(s, va)}, {v_term(s, vb)}, {"true" if who else "false"}, {TR.t_path(p)}, {zlit(u)}, '
+                         f'({v_term(s, obs[0])}, {v_term(s, obs[1])}))')
           s_meta.append((c, op, va, vb, who, p, u, obs))
           ctx.count((op, c.spec(), repr(va), repr(vb), who, p, u), True, cls='copy:' + op)
         except Exception as e:
@@ -404,14 +405,14 @@ def run(ctx):
   for i in bad[:5]:
     c, v, w_, r = e_meta[i]
     viol_value('eq', c, f'== returned {r} but the packed values are {"different" if r else "equal"}', {'value': v, 'other': w_, 'observed': r})
-  bad = ctx.coq_bad_indices('store', imports, shape_defs, 'shape * sc_op * value * value * bool * path * Z * (Z * Z)', s_cases,
-                            "let '(T, op, va, vb, who, p, u, obs) := c in pair_eqb (run_scenario T op va vb who p u) obs", shard=400)
+  bad = ctx.coq_bad_indices('store', imports, '', 'sc_op * value * value * bool * path * Z * (value * value)', s_cases,
+                            "let '(op, va, vb, who, p, u, obs) := c in let r := run_scenario op va vb who p u in veqb (fst r) (fst obs) && veqb (snd r) (snd obs)", shard=400)
   for i in bad[:6]:
     c, op, va, vb, who, p, u, obs = s_meta[i]
-    exp = ctx.coq_eval('sexp', imports, shape_defs, [f"let '(T, op, va, vb, who, p, u, obs) := {s_cases[i]} in run_scenario T op va vb who p u"])
+    exp = ctx.coq_eval('sexp', imports, '', [f"let '(op, va, vb, who, p, u, obs) := {s_cases[i]} in run_scenario op va vb who p u"])
     viol_value(op, c, f'{op}: after the copy and an in-place write of {u} to leaf {TR.t_path(p)} of the {"copy/destination" if who else "original/source"} '
-               f'the two objects pack to {tuple(map(hex, obs))}, the model (independent copies) gives {hexs(exp[0])}',
-               {'value': va, 'other': vb, 'write_to_copy': who, 'leaf_path': TR.t_path(p), 'written': u, 'observed': list(map(hex, obs)), 'expected': exp[0]})
+               f'the two objects hold {obs}, the model (independent copies) gives {hexs(exp[0])}',
+               {'value': va, 'other': vb, 'write_to_copy': who, 'leaf_path': TR.t_path(p), 'written': u, 'observed': obs, 'expected': exp[0]})
   # ---- hash() raising: the property demands hashing to agree with the packed value for every bitstruct type
   if hash_raised:
     only_lists = all(c.has_list for c, _, _ in hash_raised)
